@@ -19,6 +19,7 @@ import GraphiqModel.Proofs.DMCompileExec
 import GraphiqModel.Proofs.DMCompileRef
 import GraphiqModel.Proofs.HilbertBridgeVec
 import GraphiqModel.Proofs.HilbertBridgeKronExec
+import GraphiqModel.Proofs.HilbertBridgeCommute
 namespace Graphiq.C01
 open Graphiq Graphiq.PRow Graphiq.Tab
 
@@ -313,6 +314,32 @@ theorem measure_and_reset_leaves_control_in_ket0 (np n : Nat) (d : Det) (s s' : 
     (hv : s.t.Valid) (hn : s.t.n = n) (hr : s.t.StabReal) (hs : stepOp np n d s (.mcr c t creg) = some s') :
     proj n (PRow.Zq (qIndex np c) false) * rho n (STab.ofTab s'.t) = rho n (STab.ofTab s'.t) :=
   DMRef.mcr_control_in_ket0 np n d s s' c t creg ⟨hv, hn, hr⟩ hs
+
+open Graphiq.Hilbert in
+/-- **"Operations are applied in an order consistent with the circuit" is enough**: operations of the compile loop on
+    disjoint qubits commute as state transformations, for every `n` and every state — two gates; a gate and a measurement
+    branch `ρ ↦ Π_o ρ Π_o` of a qubit the gate does not touch; two measurement branches (the general fact is
+    `Hilbert.local_conj_comm`: matrices in the algebras of disjoint sets of sites; it is the hypothesis `hcomm` of C13's
+    `compile_independent_of_topological_order`, for outcomes attached to the measurements). -/
+theorem operations_on_disjoint_qubits_commute (n : Nat) (ρ : DMat n) :
+    (∀ g h : Gate, g.WF n → h.WF n → (∀ q, gateSites g q → ¬ gateSites h q) →
+      gateMat n g * (gateMat n h * ρ * Matrix.conjTranspose (gateMat n h)) * Matrix.conjTranspose (gateMat n g)
+        = gateMat n h * (gateMat n g * ρ * Matrix.conjTranspose (gateMat n g)) * Matrix.conjTranspose (gateMat n h)) ∧
+    (∀ (g : Gate) (q : Nat) (o : Bool), g.WF n → q < n → ¬ gateSites g q →
+      gateMat n g * (projZ n q o * ρ * Matrix.conjTranspose (projZ n q o)) * Matrix.conjTranspose (gateMat n g)
+        = projZ n q o * (gateMat n g * ρ * Matrix.conjTranspose (gateMat n g)) * Matrix.conjTranspose (projZ n q o)) ∧
+    (∀ (q q' : Nat) (o o' : Bool), q < n → q' < n → q ≠ q' →
+      projZ n q o * (projZ n q' o' * ρ * Matrix.conjTranspose (projZ n q' o')) * Matrix.conjTranspose (projZ n q o)
+        = projZ n q' o' * (projZ n q o * ρ * Matrix.conjTranspose (projZ n q o)) * Matrix.conjTranspose (projZ n q' o')) :=
+  ⟨fun g h hg hh hd => gates_on_disjoint_qubits_commute n g h hg hh hd ρ,
+   fun g q o hg hq hd => gate_commutes_with_measurement_branch n g hg q hq o hd ρ,
+   fun q q' o o' hq hq' hne => measurement_branches_commute n q q' hq hq' hne o o' ρ⟩
+
+/-- non-vacuity: `H` on qubit 0 and `CNOT 1→2` on three qubits touch disjoint qubits -/
+example : (Gate.H 0).WF 3 ∧ (Gate.CNOT 1 2).WF 3 ∧ ∀ q, Hilbert.gateSites (Gate.H 0) q → ¬ Hilbert.gateSites (Gate.CNOT 1 2) q := by
+  refine ⟨by show 0 < 3; omega, ⟨by omega, by omega, by omega⟩, fun q h => ?_⟩
+  simp only [Hilbert.gateSites] at h ⊢
+  omega
 
 /-! ### Non-vacuity of `backends_agree`: a Bell pair, a Z-measurement and a classically controlled gate -/
 def bell : List COp :=
